@@ -35,7 +35,10 @@ def bad_sql(cause: str, q: int) -> str:
         "nocol": f"select nocol from {t}",
         "nofunc": f"select no_such_function(a) from {t}",
         "nvalues": f"insert into {t} values (1, 2, 3)",
-        "duptable": f"create table {t} (a int)",
+        "duptable": f"create table {t} (x int, b varchar(3)) comment = 'changed'",
+        "dupcolumn": f"alter table {t} add column a varchar(3)",
+        "dupcolumn_ie": f"alter table if exists {t} add column b varchar(3)",
+        "renamecol_dup_ie": f"alter table if exists {t} rename column a to b",
         "dupview": f"create view {v} as select 1 as a",
         "selnosch": f"select * from {sch}.t",
         "createinnosch": f"create table {sch}.x (a int)",
@@ -75,7 +78,7 @@ class C07(Prop):
     gen_module = "FsErrorsGen"
     judge_module = "FsErrorsJudge"
     assumptions = [
-        "33 ways of referring to something missing / duplicate / mis-shaped (FROM, JOIN, subquery, CTE, DML targets and sources, DDL, "
+        "36 ways of referring to something missing / duplicate / mis-shaped (FROM, JOIN, subquery, CTE, DML targets and sources, DDL, "
         "DESCRIBE, CTAS, CLONE, MERGE, USE, columns, functions, value counts, undefined variable) x qualification levels x "
         "{full context, no schema, no database} x {inside / outside a transaction} x {variable set / unset} x {main / fresh cursor}",
         "2003/42S02 and 2043/02000 are not distinguished (the property lists both for 'missing or duplicate')",
@@ -99,7 +102,7 @@ class C07(Prop):
         base = {"Devs": set(), "MaxFails": 3, "SampleOneIn": 1}
         return [
             # every (session state x transaction x variable x sqlstate) x (cause x level x cursor): all transitions
-            dict(name="edges", mode="edges", sample=None if big else 6000, consts=dict(base, MaxFails=99, Depth=9)),
+            dict(name="edges", mode="edges", sample=None if big else 4000, consts=dict(base, MaxFails=99, Depth=9)),
             # arbitrary further use after failures
             dict(name="walks", mode="walks", depth=14, num=3000 if big else 500, consts=dict(base, MaxFails=5, Depth=14)),
         ]
@@ -113,14 +116,33 @@ class C07(Prop):
         fs = fakesnow.instance.FakeSnow()
         admin = fs.connect("D1", "S1")
         ac = admin.cursor()
-        ac.execute("create table t (a int)")
+        ac.execute("create table t (a int, b varchar(7)) comment = 'c0'")
         ac.execute("create view v as select a from t")
         raw = fs.duck_conn.cursor()
         conn = cur = None
         closed = False
         ev = []
 
-        def state():
+        def meta():
+            try:
+                cm = ac.execute("select comment from d1.information_schema.tables where table_catalog = 'D1' and table_schema = 'S1' and table_name = 'T'").fetchall()
+                desc = ac.execute("describe table d1.s1.t").fetchall()
+                return [str(cm[0][0]) if len(cm) == 1 else f"rows={len(cm)}", ",".join(r[0] for r in desc), ";".join(r[1] for r in desc if r[0] == "B")]
+            except Exception as e:
+                return ["exc:" + type(e).__name__, "", ""]
+
+        cache = {}
+
+        def state(fresh=True):
+            # T's declared metadata is read again after every failing statement and at the end of the behaviour; in between
+            # (successful DML / BEGIN / SET, none of which is DDL) the last reading is carried over
+            out = state0()
+            if fresh or "meta" not in cache:
+                cache["meta"] = meta()
+            out["meta"] = cache["meta"]
+            return out
+
+        def state0():
             objs = sorted(r[0] for r in raw.execute(
                 "select table_name from information_schema.tables where table_catalog = 'D1' and table_schema = 'S1'").fetchall())
             committed = raw.execute("select count(*) from D1.S1.T").fetchall()[0][0]
@@ -137,7 +159,7 @@ class C07(Prop):
                 var = "unset" if classify(e) == "undef" else "?" + classify(e)
             return {"mine": mine, "committed": committed, "objs": objs, "ctx": [conn.database or "none", conn.schema or "none"], "var": var}
 
-        for op in ops:
+        for nop, op in enumerate(ops, 1):
             k = op["k"]
             res = "ok"
             try:
@@ -145,7 +167,7 @@ class C07(Prop):
                     conn = {"full": lambda: fs.connect("D1", "S1"), "nosc": lambda: fs.connect("D1"), "nodb": lambda: fs.connect()}[op["ctx"]]()
                     cur = conn.cursor()
                 elif k == "good":
-                    sql = {"ins": "insert into t values (1)", "sel": "select a from t", "begin": "begin", "commit": "commit",
+                    sql = {"ins": "insert into t (a) values (1)", "sel": "select a from t", "begin": "begin", "commit": "commit",
                            "rollback": "rollback", "setvar": "set v = 7", "unsetvar": "unset v", "describe": ""}[op["w"]]
                     if op["w"] == "describe":
                         cur.describe("select a from t")
@@ -179,7 +201,7 @@ class C07(Prop):
                 res = classify(e)
             ss = cur.sqlstate if cur is not None else None
             obs = {"res": res, "ss": "none" if ss in (None, "n/a") else ("missing" if ss in ("42S02", "02000") else ss)}
-            obs.update(state() if conn is not None else {"mine": -1, "committed": 0, "objs": ["T", "V"], "ctx": ["none", "none"], "var": "-"})
+            obs.update(state(k != "good" or nop == len(ops)) if conn is not None else {"mine": -1, "committed": 0, "objs": ["T", "V"], "ctx": ["none", "none"], "var": "-", "meta": meta()})
             ev.append({"op": op, "obs": obs})
         try:
             fs.duck_conn.close()
